@@ -225,6 +225,18 @@ chain_thread (void *p)
 		cr->pre[j] = pre;
 	    }
 	}
+	if (sim_verbose && getenv ("PXSIM_DUMP_CHAINS") && st.executed && st.is_draw && PIXMAN_FORMAT_BPP (m->img[st.dst_slot].fmt) == 32 &&
+	    (cr->chain == REF_CHAIN || cr->chain == atoi (getenv ("PXSIM_DUMP_CHAINS"))))
+	{
+	    int x, y;
+	    const mslot_t *d = &m->img[st.dst_slot];
+	    for (y = 0; y < d->h && y < 4; y++)
+	    {
+		fprintf (stderr, "DUMP op %d chain %2d row %d:", j, cr->chain, y);
+		for (x = 0; x < d->w && x < 70; x++) fprintf (stderr, " %08x", ((uint32_t *)(d->lowest + (long)y * abs (d->stride)))[x]);
+		fprintf (stderr, "\n");
+	    }
+	}
 	if (cr->mode == 2 && st.executed && !st.ret && (op->kind == MOP_FILL || op->kind == MOP_BLT))
 	{
 	    /* the primitive refused (no implementation in this chain owns it, or
@@ -400,6 +412,43 @@ add_props (gen_t *g, rng_t *r, int slot, int is_source, int extreme)
     else
     {
 	if (rng_chance (r, 1, 3)) gen_clip (g, slot, 0);
+    }
+}
+
+/* a flavour aimed at the scaled nearest / bilinear fast paths of every
+ * implementation: 8888 / 0565 source under a pure scale, NEAREST or BILINEAR,
+ * any repeat, no mask / a8 mask with holes / solid mask, SRC OVER ADD */
+static void
+gen_c02_scaled (gen_t *g, rng_t *r, scenario_t *sc)
+{
+    static const pixman_format_code_t sf[] = { PIXMAN_a8r8g8b8, PIXMAN_x8r8g8b8, PIXMAN_r5g6b5, PIXMAN_a8r8g8b8, PIXMAN_a8 };
+    static const pixman_format_code_t df[] = { PIXMAN_a8r8g8b8, PIXMAN_x8r8g8b8, PIXMAN_r5g6b5, PIXMAN_a8r8g8b8 };
+    static const int ops[] = { 1, 3, 3, 12, 8 };       /* SRC OVER OVER ADD OUT_REVERSE */
+    int i, n_req = (int)rng_range (r, 3, 8), fi[2], k;
+    sc_set (sc, "chains", 0xffffffffll);
+    for (k = 0; k < 2; k++)
+	for (fi[k] = 0; fi[k] < sim_n_formats; fi[k]++)
+	    if (sim_formats[fi[k]] == (k ? df[rng_n (r, 4)] : sf[rng_n (r, 5)])) break;
+    gen_bits_exact (g, 0, fi[1], gen_pick_size (g, 160), (int)rng_range (r, 1, 6), (int)rng_n (r, 2), rng_chance (r, 1, 6), (int)rng_n (r, 16), 0);
+    gen_bits_exact (g, 2, fi[0], gen_pick_size (g, 64), (int)rng_range (r, 1, 24), (int)rng_n (r, 2), rng_chance (r, 1, 6), (int)rng_n (r, 16), 0);
+    /* a8 mask with holes: fill_bytes already mixes runs of 0x00 and 0xff in */
+    for (k = 0; k < sim_n_formats; k++) if (sim_formats[k] == PIXMAN_a8) break;
+    gen_bits_exact (g, 3, k, g->s[0].w, g->s[0].h, (int)rng_n (r, 2), 0, (int)rng_n (r, 16), 0);
+    gen_solid (g, 4);
+    for (i = 0; i < n_req; i++)
+    {
+	int64_t a[16] = { 0, 0, 0, 2, 0, 65536, 0, 0, 0, 65536, 0, 0, 0, 65536 };
+	int64_t f[9] = { 0, 0, 0, 2, rng_chance (r, 1, 2) ? PIXMAN_FILTER_NEAREST : PIXMAN_FILTER_BILINEAR, 1, 1, 0, 0 };
+	int64_t rp[5] = { 0, 0, 0, 2, rng_n (r, 4) };
+	int mask = rng_chance (r, 1, 2) ? -1 : rng_chance (r, 2, 3) ? 3 : 4;
+	a[5] = rng_chance (r, 1, 5) ? 65536 : rng_range (r, 6000, 5 * 65536);       /* x scale: non-integer steps mostly */
+	a[9] = rng_chance (r, 1, 3) ? 65536 : rng_range (r, 6000, 5 * 65536);
+	a[7] = rng_range (r, -8 * 65536, 40 * 65536); a[10] = rng_range (r, -4 * 65536, 12 * 65536);
+	sc_addv (sc, MOP_SET_TRANSFORM, 14, a);
+	sc_addv (sc, MOP_SET_FILTER, 9, f);
+	sc_addv (sc, MOP_SET_REPEAT, 5, rp);
+	gen_composite (g, 0, 2, mask, 0);
+	sc->ops[sc->n_ops - 1].a[M_PREFIX] = ops[rng_n (r, 5)];
     }
 }
 
@@ -584,6 +633,7 @@ generate (uint64_t seed, int tier, const char *property, scenario_t *sc)
     gen_init (&g, &r, sc, 0, 0);
     if (property && !strcmp (property, "C04")) gen_c04 (&g, &r, sc);
     else if (property && !strcmp (property, "C19")) gen_c19 (&g, &r, sc);
+    else if (rng_chance (&r, 1, 4)) gen_c02_scaled (&g, &r, sc);
     else gen_c02 (&g, &r, sc);
 }
 
